@@ -127,6 +127,21 @@ func c04Inputs(g *Gen, n int) [][]byte {
 			add([]byte(`{"type":"OrderedCollection","orderedItems":[` + a + `,"https://example.com/x",` + a + `]}`))
 		}
 	}
+	// OPEN FINDING C04/quadratic-list-dedup: a list of n pairwise different members is de-duplicated member by member while
+	// it is decoded (ItemCollection.Append -> Contains -> ItemsEqual -> IRI.Equals with two URL parses), n^2/2 comparisons:
+	// 1500 recipients (45 KB) take about a second, 8000 (230 KB) forty. One directed input keeps the finding in view.
+	{
+		var sb strings.Builder
+		sb.WriteString(`{"type":"Note","id":"https://example.com/n","to":[`)
+		for i := 0; i < 1500; i++ {
+			if i > 0 {
+				sb.WriteByte(',')
+			}
+			fmt.Fprintf(&sb, `"https://example.com/%s/%d"`, c04QuadraticMarker, i)
+		}
+		sb.WriteString(`]}`)
+		add([]byte(sb.String()))
+	}
 	add(bytes.Repeat([]byte("["), 100000))
 	add(bytes.Repeat([]byte("{\"a\":"), 50000))
 	add([]byte(strings.Repeat("{\"object\":", 280) + "\"https://example.com/x\"" + strings.Repeat("}", 280)))
@@ -486,7 +501,7 @@ func runC04(seed int64, n int, tier string, outDir string) (*Report, error) {
 				base = c04MemBaseGob
 			}
 			if da := heapAllocs() - a0; da > base+c04MemPerByte*uint64(len(in)) {
-				rep.Violate(Violation{Op: e.name, Input: fmt.Sprintf("%q", trunc(string(in), 300)), Expected: "memory proportional to the input", Observed: fmt.Sprintf("%d bytes allocated for %d bytes of input", da, len(in)), Index: ii})
+				rep.Violate(Violation{Op: e.name, Input: fmt.Sprintf("%q", trunc(string(in), 300)), Expected: "memory proportional to the input", Observed: fmt.Sprintf("%d bytes allocated for %d bytes of input", da, len(in)), Index: ii, Class: c04CostClass(in)})
 			} else if r := da / uint64(len(in)+1); r > c04MaxRatio {
 				c04MaxRatio = r
 				c04MaxRatioAt = fmt.Sprintf("%s on %d bytes: %d allocated", e.name, len(in), da)
@@ -507,7 +522,7 @@ func runC04(seed int64, n int, tier string, outDir string) (*Report, error) {
 			}
 			if slow(dt) {
 				stalled = true
-				rep.Violate(Violation{Op: e.name, Input: fmt.Sprintf("%q", trunc(string(in), 120)), Expected: "time proportional to the input", Observed: fmt.Sprintf("%v for %d bytes", dt, len(in)), Index: ii})
+				rep.Violate(Violation{Op: e.name, Input: fmt.Sprintf("%q", trunc(string(in), 120)), Expected: "time proportional to the input", Observed: fmt.Sprintf("%v for %d bytes", dt, len(in)), Index: ii, Class: c04CostClass(in)})
 			}
 			if err != nil {
 				rep.Count("outcome:error")
@@ -549,6 +564,17 @@ func runC04(seed int64, n int, tier string, outDir string) (*Report, error) {
 		return nil, err
 	}
 	return rep, nil
+}
+
+const c04QuadraticMarker = "quadratic-list-dedup"
+
+// known-finding class of a TIME or MEMORY violation: only the directed input of the open finding, recognised by its marker
+// (every comparison parses two URLs, so the allocations grow with n^2 as well)
+func c04CostClass(in []byte) string {
+	if bytes.Contains(in, []byte("/"+c04QuadraticMarker+"/")) {
+		return c04QuadraticMarker
+	}
+	return ""
 }
 
 func c04Class(entry string, in []byte) string { return "" }
